@@ -272,21 +272,29 @@ def insertKw (kw : Kwargs) (k : String) (v : Val) : Kwargs :=
   let (lo, hi) := kw.partition (·.1 < k)
   lo ++ [(k, v)] ++ hi
 
+/-- one incoming edge: the stored result of its source (for a switch source: of the selected case) under the edge's
+parameter name -/
+def kwPut (kw : Kwargs) (k : String) : Val → KwRes
+  | .exc x => .err x            -- the dependency failed inside a one-of scope: the consumer fails with that error
+  | v => .ok (insertKw kw k v)
+
+def kwStep (P : Program) (s : St) (acc : KwRes) (e : Edge) : KwRes :=
+  match acc, e.kwarg with
+  | .err x, _ => .err x
+  | .ok kw, none => .ok kw
+  | .ok kw, some k =>
+    if P.g.isSwitch e.u then
+      match s.sw e.u with
+      | some (_, c) => kwPut kw k (s.getHid c)
+      | none => .err ⟨"Other:AttributeError", 0, 0, 0⟩
+    else kwPut kw k (s.getHid e.u)
+
+def kwBase (P : Program) (s : St) (n : Node) : KwRes :=
+  if n == P.g.input then .ok P.inputKw
+  else (P.g.edges.filter (fun e => e.v == n)).foldl (kwStep P s) (.ok [])
+
 def nodeKwargs (P : Program) (s : St) (n : Node) : KwRes :=
-  let base : KwRes :=
-    if n == P.g.input then .ok P.inputKw
-    else
-      (P.g.edges.filter (fun e => e.v == n)).foldl (fun acc e =>
-        match acc, e.kwarg with
-        | .err x, _ => .err x
-        | .ok kw, none => .ok kw
-        | .ok kw, some k =>
-          if P.g.isSwitch e.u then
-            match s.sw e.u with
-            | some (_, c) => .ok (insertKw kw k (s.getHid c))
-            | none => .err ⟨"Other:AttributeError", 0, 0, 0⟩
-          else .ok (insertKw kw k (s.getHid e.u))) (.ok [])
-  match base, s.additional n with
+  match kwBase P s n, s.additional n with
   | .ok kw, some v => if v == .none then .ok kw else .ok (insertKw kw "additional_data" v)
   | b, _ => b
 
@@ -713,17 +721,24 @@ inductive Choice
   | cancelCaller
   deriving Repr
 
+/-- is the task awaiting the body of attempt (n, inv, att)? -/
+def gateMatches (n inv att : Nat) (tk : Task) : Bool :=
+  match tk.st with
+  | .blocked (.gate n' i' a' _) => n' == n && i' == inv && a' == att
+  | _ => false
+
+/-- the awaited body finished: the task becomes runnable with the body's outcome -/
+def gateDone (n inv att : Nat) (tk : Task) : Task :=
+  match tk.st with
+  | .blocked (.gate n' i' a' o) =>
+    if n' == n && i' == inv && a' == att then { tk with st := .runnable (.body o) } else tk
+  | _ => tk
+
 def step (P : Program) (s : St) : Choice → Option Out
   | .run t ord pick => stepTask { P := P, t := t, ord := ord, pick := pick } s
   | .gate n inv att =>
-    let hit := s.tasks.any fun tk => match tk.st with
-      | .blocked (.gate n' i' a' _) => n' == n && i' == inv && a' == att
-      | _ => false
-    if !hit then none
-    else some ({ s with tasks := s.tasks.map fun tk => match tk.st with
-      | .blocked (.gate n' i' a' o) =>
-        if n' == n && i' == inv && a' == att then { tk with st := .runnable (.body o) } else tk
-      | _ => tk }, [])
+    if !(s.tasks.any (gateMatches n inv att)) then none
+    else some ({ s with tasks := s.tasks.map (gateDone n inv att) }, [])
   | .timer t =>
     match s.tasks[t]? with
     | some tk => match tk.st with
